@@ -1,6 +1,6 @@
 SPECIFICATION Spec
 CONSTANTS
-  Totals = {0,1,2,3,4,5,6,7,8,9,10,11,12,13,14,15,16,63,64,65,66,128,189}
+  Totals = {0,1,2,3,4,5,6,7,8,9,10,11,12,13,14,64,65,128,189}
 INVARIANTS TypeOK AcceptExact Consistent InfAgree CellAgree Boundaries RevAgree IncUntilLast
 PROPERTIES IncStep
 CHECK_DEADLOCK FALSE
